@@ -21,7 +21,7 @@ TECHNIQUE = 'offline history checker over recorded operation sequences against f
 RULE = ('files: multi-chunk multi-segment model files (contiguous, interleaved, strings, timestamps) and DAQmx files; histories of 20-60 '
         'ops; non-trivial = history with >=2 live generators interleaved with >=1 random read; distinct = (file signature, op-kind sequence)')
 ASSUMPTIONS = ['a generator created at step k must deliver the same chunk sequence as one created on a fresh file']
-REQUIRED = ['family:short-middle', 'family:scaled', 'family:long', 'ops', 'gen_next_checked', 'generators_drained', 'file_generators', 'channel_generators', 'family:model', 'family:daqmx']
+REQUIRED = ['family:same-total', 'family:short-middle', 'family:scaled', 'family:long', 'ops', 'gen_next_checked', 'generators_drained', 'file_generators', 'channel_generators', 'family:model', 'family:daqmx']
 N = {'quick': 8000, 'thorough': 400000}
 KINDS = ['index', 'slice', 'read', 'new_gen', 'next_chan', 'next_file', 'read_unscaled']
 
@@ -35,6 +35,8 @@ def gen_cases(tier, seed):
         yield {'fam': 'short-middle', 's': seed * 1000003 + i}
     for i in range(N[tier] // 10):
         yield {'fam': 'scaled', 's': seed * 1000003 + i}
+    for i in range(N[tier] // 10):
+        yield {'fam': 'same-total', 's': seed * 1000003 + i}
 
 
 def shard_setup(ctx):
@@ -57,6 +59,9 @@ def build(case):
     if case['fam'] == 'short-middle':
         segs, blob = short_middle_file(rng)
         return blob, ('short-middle',) + tuple(s.signature() for s in segs), {'segments': [s.describe() for s in segs][:3]}, rng
+    if case['fam'] == 'same-total':
+        segs = same_total_file(rng)
+        return M.encode_file(segs)[0], ('same-total',) + tuple(s.signature() for s in segs), [s.describe() for s in segs][:3], rng
     if case['fam'] == 'scaled':
         segs = scaled_file(rng)
         return M.encode_file(segs)[0], ('scaled',) + tuple(s.signature() for s in segs), [s.describe() for s in segs][:2], rng
@@ -98,6 +103,35 @@ def short_middle_file(rng):
         nxt = struct.unpack(e + 'Q', bytes(b[l['start'] + 12:l['start'] + 20]))[0]
         b[l['start'] + 12:l['start'] + 20] = struct.pack(e + 'Q', nxt - drop)
         return segs, bytes(b)
+
+
+def same_total_file(rng):
+    """Two or three channels that have data in the same segments and the same total length, but whose per-segment
+    lengths are permutations of each other (the cumulative offset arrays agree only in length and final total)."""
+    nseg = rng.randint(2, 6)
+    base = [rng.choice([1, 2, 3, 4]) for _ in range(nseg)]
+    if len(set(base)) == 1:
+        base[0] += 1
+    nch = rng.randint(2, 3)
+    perms = [base[:]]
+    while len(perms) < nch:
+        p = base[:]
+        rng.shuffle(p)
+        if p not in perms or rng.random() < 0.1:
+            perms.append(p)
+    t = rng.choice(['i32', 'f64', 'u8'])
+    paths = [M.qpath('g', 'c%d' % i) for i in range(nch)]
+    segs = []
+    for si in range(nseg):
+        s = M.Seg()
+        s.endian = '<'
+        s.new_obj_list = (si == 0)
+        s.listing = [(paths[i], 'full', (t, perms[i][si], None)) for i in range(nch)]
+        s.active = [(paths[i], True, (t, perms[i][si], None)) for i in range(nch)]
+        for c in range(1):
+            s.chunks.append({p: M.rand_values(rng, ix[0], ix[1]) for p, ix in s.data_objects()})
+        segs.append(s)
+    return segs
 
 
 def scaled_file(rng):
